@@ -332,10 +332,13 @@ def run_obligation_shard(prop_id, ob_name, tier, base_seed, shard, n_examples, b
         pass
 
     def body(data):
+        # the case is always drawn, so that every run of the test consumes the same kind of data (a run that draws
+        # nothing would make Hypothesis report FlakyStrategyDefinition); only its evaluation is skipped once the
+        # wall-clock budget of this shard is used up (inconclusive for those cases, never a violation)
+        case = ob.gen(data.draw)
         if state["last"] is None and time.time() - t0 > budget_s:
             state["skipped"] += 1
             return
-        case = ob.gen(data.draw)
         try:
             run_check(ob, ctx, case)
         except Violation as v:
@@ -577,7 +580,9 @@ def main(argv=None):
         if ob.budget:
             budget = ob.budget[1 if tier == "thorough" else 0]
         else:
-            budget = 600 if tier == "thorough" else 75
+            budget = 1800 if tier == "thorough" else 300
+        if os.environ.get("VERIF_SHARD_BUDGET"):
+            budget = float(os.environ["VERIF_SHARD_BUDGET"])  # development aid: exercise the budget path
         for sh in range(shards):
             tasks.append((prop_id, ob.name, tier, seed, sh, per, budget))
 
